@@ -205,7 +205,7 @@ def run(chk, F, tier):
         (isinstance(p.ret, tuple) and ((p.ret[0] == "agg" and p.ret[3] == "Err") or p.ret[0] == "from_residual")) for p in fall),
         "a path of FromStr on which no name matched does not return Err: %s" % [mir.fmt(p.ret)[:80] for p in fall])
     chk.rule("N2.whole", floor=6, doc="a parameterless code is produced only when the whole input equals its name")
-    for name, ents in sorted(list(whole.items()) + list(prefix.items())):
+    for name, ents in sorted(list(whole.items()) + list(prefix.items()), key=lambda kv: kv[0]):
         for e in ents:
             var = e.get("variant")
             if var is None or cc.VARIANT.get(var, (None, None))[1] is not None:
